@@ -340,6 +340,9 @@ func (r *refInterp) stmt(fr *frame, s *S) outcome {
 		for _, e := range s.Es {
 			v := r.eval(fr, e)
 			r.out.WriteString(v.str())
+			if r.out.Len() > 128<<10 {
+				panic(refBudget{})
+			}
 		}
 	case "expr":
 		r.eval(fr, s.E)
